@@ -398,4 +398,94 @@ theorem optPath_render_inj (hlen : ∀ b, (sha b).length = 64) {S : Bytes → Pr
   cases r1 <;> cases r2 <;> simp_all [optPath, hashValue, HV.render, Covers]
   exact sha_utf8_inj sha hS c1 c2 h
 
+/-! ### the `hash_path` memo -/
+
+section
+variable (sha md5 : Bytes → Str)
+
+/-- The file system as `_get_state` sees it: path ↦ (`hash(st_mtime)`, bytes), `none` = missing. -/
+abbrev World := Str → Option (Int × Bytes)
+
+/-- Every memo entry that a lookup for an existing file can hit holds the digest of the file's
+current bytes. -/
+def MemoCoherent (memo : Memo) (W : World) : Prop :=
+  ∀ p mh c v, W p = some (mh, c) → memo.get (memoKey sha md5 p mh) = some v → v = sha c
+
+/-- An edit of the file system is *honest* w.r.t. the memo: every file that differs from before
+carries a (path, mtime) pair the memo has no entry for (e.g. the clock moved on). -/
+def HonestEdit (memo : Memo) (W W' : World) : Prop :=
+  ∀ p mh c, W' p = some (mh, c) → W p = some (mh, c) ∨ memo.get (memoKey sha md5 p mh) = none
+
+/-- Memos that arise from the empty memo by `state()` calls on arbitrary files. -/
+inductive Reachable : Memo → Prop
+  | empty : Reachable {}
+  | step {m : Memo} (h : Reachable m) (p : Str) (f : Option (Int × Bytes)) :
+      Reachable (stateOfFile sha md5 m p f).1
+
+theorem Memo.get_insert (m : Memo) (k v k' : Str) :
+    (m.insert k v).get k' = if k = k' then some v else m.get k' := by
+  simp only [Memo.get, Memo.insert, List.find?_cons]
+  by_cases h : k = k'
+  · simp [h]
+  · have hb : (k == k') = false := by simpa using h
+    simp [h, hb]
+
+theorem Memo.get_empty (k : Str) : ({} : Memo).get k = none := rfl
+
+theorem memoKey_inj (hlen : ∀ b, (sha b).length = 64) (S S₂ : Bytes → Prop) (hS : InjOn sha S)
+    (hS₂ : InjOn md5 S₂) {p p' : Str} {mh mh' : Int} (c : S (utf8 p)) (c' : S (utf8 p'))
+    (k : S₂ (utf8 (rawKey sha Generated.memoKeyFields (envMemo p mh))))
+    (k' : S₂ (utf8 (rawKey sha Generated.memoKeyFields (envMemo p' mh'))))
+    (h : memoKey sha md5 p mh = memoKey sha md5 p' mh') : p = p' ∧ mh = mh' := by
+  simp only [memoKey] at h
+  have hr := utf8_inj (hS₂ _ _ k k' h)
+  rw [rawKey_memo, rawKey_memo] at hr
+  obtain ⟨e₁, e₂⟩ := List.append_inj hr (by rw [hlen, hlen])
+  exact ⟨sha_utf8_inj sha hS c c' e₁, decInt_inj e₂⟩
+
+theorem stateOfFile_some (memo : Memo) (p : Str) (mh : Int) (c : Bytes) :
+    stateOfFile sha md5 memo p (some (mh, c)) =
+      match memo.get (memoKey sha md5 p mh) with
+      | some v => (memo, some v)
+      | none => (memo.insert (memoKey sha md5 p mh) (sha c), some (sha c)) := rfl
+
+/-- What happens between two observations: the file system is edited, or `state()` is called on a path. -/
+inductive Event where
+  | edit (W' : World)
+  | state (p : Str)
+
+/-- `sha`/`md5` do not collide on the paths / memo keys of the files of a world. -/
+def Cov (S S₂ : Bytes → Prop) (W : World) : Prop :=
+  ∀ q mh c, W q = some (mh, c) → S (utf8 q) ∧ S₂ (utf8 (rawKey sha Generated.memoKeyFields (envMemo q mh)))
+
+def CovHist (S S₂ : Bytes → Prop) : World → List Event → Prop
+  | W, [] => Cov sha S S₂ W
+  | W, .edit W' :: es => Cov sha S S₂ W ∧ CovHist S S₂ W' es
+  | W, .state _ :: es => CovHist S S₂ W es
+
+/-- every edit of the history is honest w.r.t. the memo at that moment -/
+def Honest : Memo → World → List Event → Prop
+  | _, _, [] => True
+  | m, W, .edit W' :: es => HonestEdit sha md5 m W W' ∧ Honest m W' es
+  | m, W, .state p :: es => Honest (stateOfFile sha md5 m p (W p)).1 W es
+
+/-- every `state()` of the history on an existing file returns the digest of the file's bytes at that moment -/
+def AllCorrect : Memo → World → List Event → Prop
+  | _, _, [] => True
+  | m, W, .edit W' :: es => AllCorrect m W' es
+  | m, W, .state p :: es =>
+      (∀ mh c, W p = some (mh, c) → (stateOfFile sha md5 m p (W p)).2 = some (sha c))
+        ∧ AllCorrect (stateOfFile sha md5 m p (W p)).1 W es
+
+theorem covHist_head (S S₂ : Bytes → Prop) (W : World) (es : List Event) (h : CovHist sha S S₂ W es) :
+    Cov sha S S₂ W := by
+  induction es generalizing W with
+  | nil => exact h
+  | cons e es ih =>
+    cases e with
+    | edit W' => exact h.1
+    | state p => exact ih W h
+
+end
+
 end Pytask.Hash
